@@ -165,7 +165,7 @@ def correspondence(ctx):
     # multi-agent sessions on the real coordinator (joins, actions, collective resets, faults): every response - CREATED,
     # OK, FORBIDDEN, RESET_DONE - must carry the view the coordinator holds for THAT agent (monitor tagged C15 in coordcommon)
     from props import coordcommon as CC
-    CC.run_sessions(ctx, "C15", 78 if ctx.tier == "thorough" else 46,
+    CC.run_sessions(ctx, "C15", 84 if ctx.tier == "thorough" else 52,
                     lambda r: dict(n_events=r.choice([40, 70]), burst=0.2, fault=0.03, bad=0.03, resets=0.3),
                     lambda r: dict(required=r.choice([2, 2, 3]), max_steps=r.choice([1, 2, 3])))
     sess_cov = {k: ctx.coverage.get(k) for k in ("sessions", "labels_followed", "response_and_barrier_statistics")}
